@@ -9,11 +9,18 @@
    of put / get / task_done / join calls plus its feeder thread -- under ANY schedule (timed
    acquires and polls may give up at any step), counters below SEM_VALUE_MAX.
    Ghost logs: plog p = messages process p appended to its buffer (= accepted by its puts), in
-   order; slog p = messages its feeder wrote to the pipe, in order; sendlog / getlog = all
-   messages written to / read from the pipe, in order.  Semaphores: 0 _sem, 1 _rlock, 2 _wlock,
+   order; slog p = messages its feeder wrote to the pipe, in order; sendlog = all (process,
+   message) pairs written to the pipe, in order; getlog = all messages read from it, in order;
+   from_proc p l = the messages of l tagged p, in order.  Semaphores: 0 _sem, 1 _rlock, 2 _wlock,
    nls p = lock of process p's _notempty.  qt_tr = 1 for a thread holding a capacity token for
    a message that is neither buffered nor in the pipe (put before its append, feeder between
-   pop and send, get between receive and the release of _sem). *)
+   pop and send, get between receive and the release of _sem) -- AND for a feeder whose thread
+   has ended (pc 14 of p_feed: `ForkingPickler.dumps(obj)` raised, Queue._feed returned): that
+   token is never given back, see C16_lose_nothing_refuted.  ftr t = the message a feeder has
+   popped and not sent (for an ended feeder: the message it dropped).  Messages >= 1000 are the
+   ones the harness puts as objects that cannot be pickled.  gheld t = the message a get has
+   received and not yet returned; rcount m res = number of finished get calls in res that
+   returned m. *)
 From Coq Require Import ZArith List Bool.
 From BV Require Import Model.SemProg Model.QueueProg Model.QueueCode Proofs.SemProgProofs Proofs.QueueInvProofs Proofs.QueueProofs.
 From BV Require Gen.P_queue.
@@ -50,12 +57,15 @@ Proof. exact G_queue_capacity. Qed.
 Print Assumptions C16_capacity.
 
 (* order: per producer, appended = sent ++ held by the feeder ++ buffered (in order); the pipe
-   is FIFO; the send log is a merge of the producers' send logs *)
+   is FIFO; the send log is an ORDER-PRESERVING merge of the producers' send logs: the entries
+   written by p's feeder are, in order, exactly slog p (this replaces the former count identity,
+   which is kept as the last conjunct) *)
 Theorem C16_fifo : forall M g, QReach M g ->
     (forall p, plog (nth p (procs g) dps) =
                slog (nth p (procs g) dps) ++ ftr (nth (2 * p + 1) (qthr g) dqt) ++ buf (nth p (procs g) dps)) /\
-    sendlog g = getlog g ++ pipe g /\
-    (forall m, zcnt m (sendlog g) = sumz (fun ps => zcnt m (slog ps)) (procs g)).
+    map snd (sendlog g) = getlog g ++ pipe g /\
+    (forall p, from_proc p (sendlog g) = slog (nth p (procs g) dps)) /\
+    (forall m, zcnt m (map snd (sendlog g)) = sumz (fun ps => zcnt m (slog ps)) (procs g)).
 Proof. exact G_queue_fifo. Qed.
 Print Assumptions C16_fifo.
 
@@ -68,6 +78,87 @@ Theorem C16_no_loss_no_dup : forall M g m, QReach M g ->
     + sumz (fun ps => zcnt m (buf ps)) (procs g).
 Proof. exact G_queue_no_loss_no_dup. Qed.
 Print Assumptions C16_no_loss_no_dup.
+
+(* what get RETURNS: every message read from the pipe has been returned by exactly one finished
+   get call or is held by a get between its receive and its return (m = -5 is the code of the
+   exception Empty in the result lists) *)
+Theorem C16_get_returns_received : forall M g m, QReach M g -> m <> E_EMPTY ->
+    zcnt m (getlog g) =
+    sumz (fun t => rcount m (qresults t)) (qthr g) + sumz (fun t => zcnt m (gheld t)) (qthr g).
+Proof. exact G_get_returns_received. Qed.
+Print Assumptions C16_get_returns_received.
+
+(* put to get: each message, with its multiplicity among the accepted puts, is exactly: returned
+   by a get + held by a get about to return it + in the pipe + held by a feeder + buffered *)
+Theorem C16_put_get_exact : forall M g m, QReach M g -> m <> E_EMPTY ->
+    sumz (fun ps => zcnt m (plog ps)) (procs g) =
+    sumz (fun t => rcount m (qresults t)) (qthr g) + sumz (fun t => zcnt m (gheld t)) (qthr g)
+    + zcnt m (pipe g)
+    + psum (fun p => zcnt m (ftr (nth (2 * p + 1) (qthr g) dqt))) (length (procs g))
+    + sumz (fun ps => zcnt m (buf ps)) (procs g).
+Proof. exact G_put_get_exact. Qed.
+Print Assumptions C16_put_get_exact.
+
+(* ---- the feeder's failure path.  "Lose nothing" is FALSE of the code: once a feeder thread has
+   ended, what its process puts afterwards is accepted and never delivered, and the capacity
+   token of the dropped message is never returned.  Witness (capacity 2; process 0: put(an
+   object that cannot be pickled), put(12); process 1: get()): a reachable state in which no
+   step is possible any more, both puts returned None, 12 is in the buffer of process 0,
+   nothing was ever written to the pipe, the consumer waits in recv, and the capacity semaphore
+   is 0 although a single item is waiting. *)
+Theorem C16_lose_nothing_refuted :
+  QReach 2 qlost_state /\
+  (forall i go, qstep P_queue.code qlost_state i go = None) /\
+  map snd (qresults (nth 0 (qthr qlost_state) dqt)) = [V_NONE; V_NONE] /\
+  plog (nth 0 (procs qlost_state) dps) = [1000; 12] /\
+  qexited P_queue.code (nth 1 (qthr qlost_state) dqt) = true /\
+  ftr (nth 1 (qthr qlost_state) dqt) = [1000] /\
+  buf (nth 0 (procs qlost_state) dps) = [12] /\ sendlog qlost_state = [] /\ pipe qlost_state = [] /\
+  (let c := nth 2 (qthr qlost_state) dqt in qfin c = false /\ qcid c = 1%nat /\ qpc c = 3%nat) /\
+  qv 0 qlost_state = 0 /\
+  sumz blen (procs qlost_state) + Z.of_nat (length (pipe qlost_state)) = 1.
+Proof. exact qlost_witness. Qed.
+Print Assumptions C16_lose_nothing_refuted.
+
+(* what remains true (partial): a feeder's thread ends only over a message it cannot serialise;
+   together with C16_fifo / C16_put_get_exact: the messages a feeder wrote are a prefix of what
+   its process's puts appended, and the only message that is neither sent nor buffered is the one
+   the ended feeder dropped *)
+Theorem C16_feeder_ends_only_on_unpicklable_partial : forall M g t, QReach M g -> In t (qthr g) ->
+    qfeeder t = true -> qpc t = 14%nat -> picklable (r2 (qrg t)) = false.
+Proof. exact G_feeder_ends_only_on_unpicklable. Qed.
+Print Assumptions C16_feeder_ends_only_on_unpicklable_partial.
+
+(* ---- JoinableQueue.join / task_done (PARTIAL: the counter and the two tests; the sleeping path
+   of join -- wait / notify_all of the inner Condition -- is covered by monitors and by the
+   search on the generated program only).  qt_unf t = (finished JoinableQueue.put calls of t that
+   returned) - (finished task_done calls of t that did not raise ValueError) + 1 if t is a put
+   past its _unfinished_tasks.release() - 1 if t is a task_done past its successful
+   _unfinished_tasks.acquire(False).  So  sumz qt_unf (qthr g)  is the number of items put and
+   not yet matched by a task_done, and it is what the semaphore holds: *)
+Theorem C16_unfinished_count : forall M g, QReach M g -> qv 3 g = sumz qt_unf (qthr g) /\ 0 <= qv 3 g.
+Proof. exact G_unfinished_count. Qed.
+Print Assumptions C16_unfinished_count.
+
+(* task_done raises ValueError("called too many times") exactly when every item put has already
+   been matched; otherwise it takes one *)
+Theorem C16_task_done_raises_iff_matched : forall M g i t g' e, QReach M g ->
+    nth_error (qthr g) i = Some t -> qfin t = false -> qfeeder t = false ->
+    qcid t = 4%nat -> qpc t = 1%nat ->
+    qstep P_queue.code g i true = Some (g', e) ->
+    (snd e = 0 <-> sumz qt_unf (qthr g) = 0) /\ (snd e = 1 <-> 0 < sumz qt_unf (qthr g)).
+Proof. exact G_task_done_raises_iff_matched. Qed.
+Print Assumptions C16_task_done_raises_iff_matched.
+
+(* join's test, made under the condition's lock, reads "zero" (join then returns without
+   waiting) exactly when every item put has been matched by a task_done *)
+Theorem C16_join_exact_partial : forall M g i t g' e, QReach M g ->
+    nth_error (qthr g) i = Some t -> qfin t = false -> qfeeder t = false ->
+    qcid t = 5%nat -> qpc t = 1%nat ->
+    qstep P_queue.code g i true = Some (g', e) ->
+    (snd e = 1 <-> sumz qt_unf (qthr g) = 0).
+Proof. exact G_join_test_iff_matched. Qed.
+Print Assumptions C16_join_exact_partial.
 
 (* reader lock, writer lock and each process's _notempty lock have one holder *)
 Theorem C16_locks : forall M g, QReach M g ->
@@ -89,7 +180,7 @@ Print Assumptions C16_full_only_when_zero.
 (* Empty: a non-blocking get finds nothing exactly when the pipe is empty *)
 Theorem C16_empty_only_when_nothing : forall g i t g' e,
     nth_error (qthr g) i = Some t -> qfin t = false -> qfeeder t = false ->
-    qcid t = 1%nat -> qpc t = 17%nat ->
+    qcid t = 1%nat -> qpc t = 19%nat ->
     qstep P_queue.code g i true = Some (g', e) ->
     (snd e = 0 <-> pipe g = []).
 Proof. exact G_empty_only_when_nothing. Qed.
@@ -106,6 +197,6 @@ Print Assumptions C16_put_appends_its_argument.
    pipe and is held by the consumer (in transit), the second producer is blocked on the full
    queue *)
 Example C16_witness :
-  QReach 1 qex_state /\ qv 0 qex_state = 0 /\ getlog qex_state = [11] /\ sendlog qex_state = [11] /\
+  QReach 1 qex_state /\ qv 0 qex_state = 0 /\ getlog qex_state = [11] /\ sendlog qex_state = [(0%nat, 11)] /\
   sumz qt_tr (qthr qex_state) = 1 /\ pipe qex_state = [].
 Proof. exact qex_witness. Qed.
